@@ -319,9 +319,14 @@ func (c13Engine) Run(raw json.RawMessage) (interface{}, error) {
 		decoy.Render()
 		opts = append(opts, bidi)
 	}
+	// the option given last decides: an earlier, different value first - and when no features are
+	// wanted, an earlier value taken back with nil
 	if in.Features != nil {
-		f := *in.Features
-		opts = append(opts, pgs.SupportedFeatures(&f))
+		f, other := *in.Features, *in.Features+1
+		opts = append(opts, pgs.SupportedFeatures(&other), pgs.SupportedFeatures(&f))
+	} else {
+		one := uint64(1)
+		opts = append(opts, pgs.SupportedFeatures(&one), pgs.SupportedFeatures(nil))
 	}
 	for _, mu := range in.Mutators {
 		k, v := mu[0].String(), mu[1].String()
